@@ -27,7 +27,7 @@ LEVEL_TEXT = ("Scenarios restricted to the v1 vocabulary (discrete/continuous re
               "be identical. Runs with the grid section omitted / optional sections omitted must equal the explicit ones.")
 LEVEL_NOTE = "The TOML text is produced by the harness's own writer and read by ladim through tomli; with diffusion > 0 the tracker's rng is re-seeded identically by the harness in every run so that outputs are comparable exactly."
 RULE = ("case = scenario spec; renderings yaml2, toml2, yaml1 (+ grid-omitted, sections-omitted variants). Non-trivial: several release times or continuous release and moving water; distinct by spec.")
-MANDATORY = ["diffusion_coefficient_of_exactly_one", "configuration_file_names_with_several_dots", "wildcard_with_question_mark", "reference_time_as_native_datetime_with_time_of_day", "extra_forcing_variable", "version_key_as_string_with_decimal_point", "v1_grid_file_omitted_pairs", "yaml_anchor_and_alias", "steps_not_multiple_of_output_period", "wildcard_names_of_unequal_length", "v1_file_names_in_files_section", "v1_discrete_with_release_frequency", "configure_dicts_compared", "plugin_gridforce", "version_key_omitted", "yaml2_vs_toml2", "yaml2_vs_yaml1", "grid_omitted_pairs", "wildcard_forcing", "optional_sections_omitted_pairs", "continuous", "discrete", "subgrid", "diffusion_seeded",
+MANDATORY = ["ibm_plugin_file_with_module_level_state", "diffusion_coefficient_of_exactly_one", "configuration_file_names_with_several_dots", "wildcard_with_question_mark", "reference_time_as_native_datetime_with_time_of_day", "extra_forcing_variable", "version_key_as_string_with_decimal_point", "v1_grid_file_omitted_pairs", "yaml_anchor_and_alias", "steps_not_multiple_of_output_period", "wildcard_names_of_unequal_length", "v1_file_names_in_files_section", "v1_discrete_with_release_frequency", "configure_dicts_compared", "plugin_gridforce", "version_key_omitted", "yaml2_vs_toml2", "yaml2_vs_yaml1", "grid_omitted_pairs", "wildcard_forcing", "optional_sections_omitted_pairs", "continuous", "discrete", "subgrid", "diffusion_seeded",
              "particle_variable_column", "values_compared"]
 ASSUMPTIONS = ["only what the v1 vocabulary can express"]
 MIN_CASES_PER_PROCESS = 4  # several runs share one interpreter: state leaking between runs (module caches, shared defaults) becomes observable
@@ -84,7 +84,7 @@ def spec_for(case: dict[str, Any]) -> dict[str, Any]:
     cont = bool(case["idx"] % 2)
     nfiles = int(rng.choice([1, 2, 3]))
     return dict(dt=dt, ns=ns, cont=cont, freq=int(rng.integers(1, 3)), subgrid=[2, 17, 1, 13] if case["idx"] % 3 == 0 else None,
-                diffusion=float(rng.choice([0.0, 0.0, 25.0, 1.0])), diff_as_int=bool(case["idx"] % 2), dotted_names=int(case["idx"] % 3), advection=str(rng.choice(["EF", "RK2", "RK4"])),
+                diffusion=float(rng.choice([0.0, 0.0, 25.0, 1.0])), diff_as_int=bool(case["idx"] % 2), stateful_ibm=bool(case["idx"] % 2 == 0), dotted_names=int(case["idx"] % 3), advection=str(rng.choice(["EF", "RK2", "RK4"])),
                 nfiles=nfiles, wildcard=bool(nfiles > 1 or rng.random() < 0.5), reference=("2019-12-31T12:30:00" if case["idx"] % 4 == 1 else "2019-12-31T00:00:00") if (rng.random() < 0.5 or case["idx"] % 4 == 1) else None,
                 cohort=bool(rng.random() < 0.6), ibm=bool(rng.random() < 0.5 or case["idx"] % 4 == 3), xf=bool(case["idx"] % 4 == 3), outper_spelling=int(rng.integers(2)), seed=int(rng.integers(10**6)),
                 outper_mult=2 if (case["idx"] // 2) % 2 else 1, version_key=bool(rng.random() < 0.5 or case["idx"] % 4 == 2), vsp=case["idx"] % 4, plugin_gridforce=bool(case["idx"] % 4 == 1), odd_names=bool(nfiles > 1 and case["idx"] % 3 != 2))
@@ -179,7 +179,14 @@ def renderings(sp: dict[str, Any], wd: Path, w, rls: Path, names: list[str]) -> 
     v2["release"] = dict(release_file=str(rls), names=names)
     if sp["cont"]:
         v2["release"].update(continuous=True, release_frequency=sp["freq"] * dt)
-    v2["ibm"] = dict(module=C.REC_IBM, age=True, log=False) if sp["ibm"] else {}
+    ibm_mod = C.REC_IBM
+    if sp["ibm"] and sp.get("stateful_ibm"):
+        # the user's IBM keeps module-level state (a call counter that feeds the age): every run loads the file afresh, so every spelling starts it from zero
+        ibm_file = wd / "counting_ibm.py"
+        ibm_file.write_text("from vmon.plugins.rec_ibm import IBM as _IBM\n\nCALLS = 0\n\n\nclass IBM(_IBM):\n    def update(self):\n        global CALLS\n        CALLS += 1\n"
+                            "        super().update()\n        st = self.state\n        st['age'] = st['age'] + 0.001 * CALLS\n")
+        ibm_mod = str(ibm_file)
+    v2["ibm"] = dict(module=ibm_mod, age=True, log=False) if sp["ibm"] else {}
     v2["output"] = dict(filename=out("yaml2"), output_period=outper_v,
                         instance_variables={k: dict(encoding=dict(datatype=nct[k]), attributes=attrs[k]) for k in ivars},
                         particle_variables={k: dict(encoding=dict(datatype=nct[k]), attributes=attrs[k]) for k in pvars})
@@ -205,7 +212,7 @@ def renderings(sp: dict[str, Any], wd: Path, w, rls: Path, names: list[str]) -> 
         # valid v1: a discrete release that still carries a release_frequency entry (the docs show both keys side by side)
         v1["particle_release"].update(release_type="discrete", release_frequency=sp["freq"] * dt)
     if sp["ibm"]:
-        v1["ibm"] = dict(ibm_module=C.REC_IBM, variables=["age"] + (["temp"] if sp.get("xf") else []), age=True, log=False)
+        v1["ibm"] = dict(ibm_module=ibm_mod, variables=["age"] + (["temp"] if sp.get("xf") else []), age=True, log=False)
     if sp.get("xf"):
         v1["gridforce"]["extra_forcing"] = ["temp"]
     for k in ivars + pvars:
@@ -294,6 +301,7 @@ def run_case(case: dict[str, Any], wd: Path) -> dict[str, Any]:
     sit["wildcard_names_of_unequal_length"] = int(sp["wildcard"] and sp["odd_names"])
     sit["particle_variable_column"] = int(sp["cohort"])
     sit["diffusion_seeded"] = int(sp["diffusion"] > 0)
+    sit["ibm_plugin_file_with_module_level_state"] = int(bool(sp["ibm"] and sp.get("stateful_ibm")))
     sit["diffusion_coefficient_of_exactly_one"] = int(sp["diffusion"] == 1.0)
     sit["configuration_file_names_with_several_dots"] = int(sp.get("dotted_names", 0) > 0)
 
